@@ -112,6 +112,7 @@ type TermBank struct {
 	kbuf  []byte
 	varAxioms map[string]*Term // defining axioms of canonical array constants
 	defArrs   map[int]*Term
+	defBodies map[string]defBody
 }
 
 type FuncDecl struct {
@@ -121,12 +122,13 @@ type FuncDecl struct {
 	Ret    Sort
 	Body   *Term // nil => uninterpreted
 	Lazy   func(fd *FuncDecl) // builds Body on first need
+	ArrSlots [][2]int // (array, length) parameter positions: the function depends on arr[0..len) only
 	Rec    bool
 	Axioms []*Term // assumed facts about this function (added to every query that mentions it)
 	Deps   []string
 }
 
-var TB = &TermBank{tab: map[string]*Term{}, funcs: map[string]*FuncDecl{}, varAxioms: map[string]*Term{}, defArrs: map[int]*Term{}}
+var TB = &TermBank{tab: map[string]*Term{}, funcs: map[string]*FuncDecl{}, varAxioms: map[string]*Term{}, defArrs: map[int]*Term{}, defBodies: map[string]defBody{}}
 
 func (b *TermBank) mk(t *Term) *Term {
 	buf := b.kbuf[:0]
@@ -1072,6 +1074,10 @@ func Select(arr, idx *Term) *Term {
 		panic("select index must be 64 bits")
 	}
 	switch arr.Op {
+	case OVar:
+		if d, ok := TB.defBodies[arr.Name]; ok {
+			return Subst(d.body, map[int]*Term{d.k.id: idx})
+		}
 	case OConstArr:
 		return arr.Args[0]
 	case OStore:
@@ -1419,6 +1425,58 @@ func Script(asserts []*Term, getVals []*Term, opaque map[string]bool) string {
 	for _, a := range all {
 		visit(a)
 	}
+	// extensional congruence for opaque functions over byte strings: for two applications
+	// F(..a1,n1..) and F(..a2,n2..), either the results agree or the strings differ at a witness index.
+	{
+		byFn := map[string][]*Term{}
+		var fnames []string
+		for _, t := range order {
+			if t.Op != OApp || t.hasBound {
+				continue
+			}
+			fd := TB.funcs[t.Name]
+			if fd == nil || len(fd.ArrSlots) == 0 || !(fd.Body == nil && fd.Lazy == nil || opaque[t.Name]) {
+				continue
+			}
+			if len(byFn[t.Name]) == 0 {
+				fnames = append(fnames, t.Name)
+			}
+			byFn[t.Name] = append(byFn[t.Name], t)
+		}
+		sort.Strings(fnames)
+		for _, fnm := range fnames {
+			apps := byFn[fnm]
+			fd := TB.funcs[fnm]
+			if len(apps) > 12 {
+				apps = apps[:12]
+			}
+			isArr := map[int]bool{}
+			for _, sl := range fd.ArrSlots {
+				isArr[sl[0]] = true
+			}
+			for i := 0; i < len(apps); i++ {
+				for j := i + 1; j < len(apps); j++ {
+					a, b := apps[i], apps[j]
+					var conds []*Term
+					for pi := range a.Args {
+						if isArr[pi] {
+							continue
+						}
+						conds = append(conds, Eq(a.Args[pi], b.Args[pi]))
+					}
+					for si, sl := range fd.ArrSlots {
+						k0 := Var(fmt.Sprintf("ext!%d!%d!%d", a.id, b.id, si), BV(64))
+						conds = append(conds, Imp(BvUlt(k0, a.Args[sl[1]]), Eq(Select(a.Args[sl[0]], k0), Select(b.Args[sl[0]], k0))))
+					}
+					inst := Imp(And(conds...), Eq(a, b))
+					if !inst.IsTrue() {
+						visit(inst)
+						all = append(all, inst)
+					}
+				}
+			}
+		}
+	}
 	// defining axioms of canonical arrays that occur (transitively)
 	doneAx := map[string]bool{}
 	for changed := true; changed; {
@@ -1593,6 +1651,11 @@ func FreshBound(prefix string, s Sort) *Term {
 	return Bound(fmt.Sprintf("%s!b%d", prefix, freshCtr), s)
 }
 
+type defBody struct {
+	k    *Term
+	body *Term
+}
+
 // DefArr returns the canonical array constant a with (forall k. a[k] = body(k)).
 // Two requests with the same definition yield the same constant.
 func DefArr(w int, k *Term, body *Term) *Term {
@@ -1603,6 +1666,7 @@ func DefArr(w int, k *Term, body *Term) *Term {
 	}
 	a := Var(fmt.Sprintf("da!%d", len(TB.defArrs)), Arr(w))
 	TB.defArrs[cb.id] = a
-	TB.varAxioms[a.Name] = Forall([]*Term{ck}, Eq(Select(a, ck), cb))
+	TB.varAxioms[a.Name] = Forall([]*Term{ck}, Eq(TB.mk(&Term{Op: OSelect, S: BV(w), Args: []*Term{a, ck}}), cb))
+	TB.defBodies[a.Name] = defBody{ck, cb}
 	return a
 }
